@@ -923,12 +923,16 @@ def check_C14(ctx):
     with open(small, "w") as f:
         step = max(1, len(lines) // (1500 if q else 6000))
         f.write("\n".join(lines[::step]) + "\n")
-    parts, _ = run_node_scenarios(ctx, [("flood", ["--scenario", "flood", "--corpus", small, "--seed", str(vlib.seed())])], ["C14", "C05"], "flood")
+    # ... and searching nodes on hostile networks: solicited answers (right transaction id) with hostile node lists -- own id,
+    # duplicates, one id at two addresses, unreachable nodes
+    sc = [("flood", ["--scenario", "flood", "--corpus", small, "--seed", str(vlib.seed())])]
+    sc += lookup_scenarios(ctx, "hostile", [12] if q else [5, 12, 30], [1, 2] if q else [1, 2, 3, 4])[:2 if q else 12]
+    parts, _ = run_node_scenarios(ctx, sc, ["C14", "C05"], "flood")
     for p in parts:
         if p.crashed:
             ctx.violation("the node process died while receiving the datagram sequence", vlib.save_replay(ctx.pid, "flood-crash.ndjson", src_path=p.trace_file))
         elif not any('"ev":"End"' in l for l in open(p.trace_file)):
-            ctx.violation("the flood scenario did not run to its end (node hung)", vlib.save_replay(ctx.pid, "flood-hang.ndjson", src_path=p.trace_file))
+            ctx.violation("the scenario did not run to its end (node hung)", vlib.save_replay(ctx.pid, "flood-hang.ndjson", src_path=p.trace_file))
     node_verdict(ctx, parts, "flood")
     ctx.cov["rule"] = ("datagrams = 12 seed messages x (truncation at every offset, every length prefix x 23 magnitudes up to 2^128, every "
                        "integer x 17 limit values, every tree position x 8 wrong-type values) + nesting depths 1..1500 (lists, dicts, closed / "
